@@ -210,6 +210,9 @@ def _resolve_core(s, tenv):
     if s in tenv.cfg and isinstance(tenv.cfg[s], dict):
         sub = tenv.cfg[s]
         return TD('obj', cls=sub['cls'], cfg=sub['cfg'])
+    if tenv.cls is not None and (s == tenv.cls.name or s.startswith(tenv.cls.name + '<')) and getattr(tenv.cls, 'outer', None) is None:
+        # the class's own (injected) name: another object of the same instantiation
+        return TD('obj', cls=tenv.cls.name, cfg=tenv.cfg)
     if tenv.cls is not None:
         if s in tenv.cls.aliases:
             return resolve(tenv.cls.aliases[s], tenv)
